@@ -619,6 +619,25 @@ func idChain(keys, vals []string, p string) ([]string, bool) {
 	}
 }
 
+func asciiLower(s string) string {
+	b := []byte(s)
+	for i, c := range b {
+		if c >= 'A' && c <= 'Z' {
+			b[i] = c + 32
+		}
+	}
+	return string(b)
+}
+
+func isASCII(s string) bool {
+	for i := 0; i < len(s); i++ {
+		if s[i] >= 0x80 {
+			return false
+		}
+	}
+	return true
+}
+
 func alphaOnly(s string) bool {
 	if s == "" {
 		return false
@@ -633,6 +652,11 @@ func alphaOnly(s string) bool {
 
 // inDomain returns "" when the case may be run, else the answer to print.
 func (c *acase) inDomain() string {
+	for _, u := range c.upg {
+		if !isASCII(u) {
+			return "bad-op" // strings.ToLower is only modelled on ASCII
+		}
+	}
 	for _, p := range c.pats {
 		if !safeBytes(p) || !isCleanPath(p) || contains(builtinPats, p) {
 			return "bad-op"
@@ -950,28 +974,17 @@ func (p *prop) oracle(c *acase, addr caddy.NetworkAddress, o obs, stateChanged b
 	}
 	if !c.remote {
 		s := specOf(c, addr)
-		// websocket upgrades are always refused
-		ws, wsFirstExact, wsFirstFold := false, false, false
-		for i, u := range c.upg {
-			if strings.Contains(strings.ToLower(u), "websocket") {
-				ws = true
-				if i == 0 {
-					wsFirstFold = true
-					wsFirstExact = strings.Contains(u, "websocket")
-				}
-			}
+		// websocket upgrades are always refused: any Upgrade value, any ASCII casing
+		ws := false
+		for _, u := range c.upg {
+			ws = ws || strings.Contains(asciiLower(u), "websocket")
 		}
 		if ws {
 			tags = append(tags, "spec:websocket")
 			if touched {
-				switch {
-				case wsFirstExact:
-					fail("ws-upgrade-not-refused", "websocket upgrade request was not refused")
-				case wsFirstFold:
-					fail("ws-upgrade-not-refused:case-variant", "websocket upgrade request spelled with capitals was not refused")
-				default:
-					fail("ws-upgrade-not-refused:later-value", "websocket upgrade in a second Upgrade header value was not refused")
-				}
+				fail("ws-upgrade-not-refused", fmt.Sprintf("websocket upgrade request (Upgrade values %q) was not refused", c.upg))
+			} else if o.final != "refused:websocket" {
+				fail("ws-upgrade-refusal-not-websocket", "websocket upgrade on a local endpoint was refused by another check than the websocket check")
 			}
 			return
 		}
